@@ -90,6 +90,12 @@ class IrqMonitor:
                         self._v("reti_does_not_restore", fields=sorted(bad), detail=bad)
                     if not self.frames and b["in_irq"] and not top.get("sw"):
                         self._v("in_interrupt_flag_survives_reti", pc=b["pc"])
+                    # returning from one source must not retire a DIFFERENT, still pending request
+                    src_mask = {"MTI": 1, "STI": 2, "KEY": 4, "ONK": 8}.get(top.get("source") or "", None)
+                    cleared = a["isr"] & ~b["isr"] & 0x0F
+                    if src_mask is not None and cleared & ~src_mask:
+                        self._v("reti_clears_other_status_bits", delivered=top.get("source"), isr_before=a["isr"],
+                                isr_after=b["isr"])
         # ---------------- entry ------------------------------------------------------------------------------
         if entry:
             self.stats["entries"] += 1
@@ -124,7 +130,8 @@ class IrqMonitor:
                 self._v("entry_without_in_interrupt_flag", pc=b["pc"])
             if b["irq_total"] != a["irq_total"] + 1:
                 self._v("entry_without_counter", before=a["irq_total"], after=b["irq_total"])
-            self.frames.append({"pc": p_pc, "f": p_f & 3, "imr": p_imr, "S": mid["S"] if reti_then_entry else a["S"]})
+            self.frames.append({"pc": p_pc, "f": p_f & 3, "imr": p_imr, "S": mid["S"] if reti_then_entry else a["S"],
+                                "source": b.get("source")})
             self.eligible_run = 0
         else:
             if b["irq_total"] != a["irq_total"] and executed != OP_IR:
@@ -147,7 +154,12 @@ class IrqMonitor:
             # (with a status bit already pending at `a` the step legitimately wakes and runs again)
             self.stats["off_steps"] += 1
             rose = (b["isr"] & ~a["isr"]) & 3 & ~self.injected_isr
-            if (b["next_mti"], b["next_sti"]) != (a["next_mti"], a["next_sti"]) or rose:
+            # stopped timers: neither the absolute targets nor their distance from "now" may shrink while off (time that
+            # passes while powered off must not be charged to the timers at wake-up)
+            dist_a = (a["next_mti"] - a["cycles"], a["next_sti"] - a["cycles"])
+            dist_b = (b["next_mti"] - b["cycles"], b["next_sti"] - b["cycles"])
+            if (b["next_mti"], b["next_sti"]) != (a["next_mti"], a["next_sti"]) or rose or \
+                    (a.get("timer_enabled") and dist_a != dist_b):
                 self._v("timers_advance_while_powered_off", a=(a["next_mti"], a["next_sti"], a["isr"]),
                         b=(b["next_mti"], b["next_sti"], b["isr"]), cycles=(a["cycles"], b["cycles"]))
         if executed == OP_OFF and not was_low_power and not entry and b["power"] != "running":
